@@ -132,12 +132,12 @@ def normGo (cfg : Cfg) : List Ctx → Prev → Option Nat → List Tok → List 
       else if ctx == .nth then .mk anbTT t.data [] :: normGo cfg stack .none none r
       else t :: normGo cfg stack .none none r
     | .ident =>
-      if prev == .dot then t :: normGo cfg stack .none none r else
+      -- a class name; a namespace prefix (directly in front of `|`)
+      if prev == .dot || (match r with | n :: _ => isBar n | [] => false) then t :: normGo cfg stack .none none r else
       match ctx with
       | .sel =>
         let d :=
           if prev == .colon then lower t.data
-          else if (match r with | n :: _ => isBar n | [] => false) then t.data     -- namespace prefix
           else if cfg.htmlTypes then lower t.data else t.data
         .mk .ident d [] :: normGo cfg stack .none none r
       | .nth =>
@@ -163,6 +163,21 @@ def mergeAnb : List Tok → List Tok
 def selNorm (cfg : Cfg) (ts : List Tok) : List Tok := mergeAnb (normGo cfg [] .none none ts)
 
 def selEquiv (cfg : Cfg) (a b : List Tok) : Bool := selNorm cfg a == selNorm cfg b
+
+/-- shape of the selector tokens the parser delivers for a valid selector (lexer / grammar contract): a delimiter is
+one byte, a `.` is directly followed by the class name, inside `[…]` a string only stands as the value behind the
+matcher.  `prevDot` = the previous token was a `.`, `attr` = `some phase` inside `[…]` -/
+def shapeGo : Bool → Option Nat → List Tok → Bool
+  | prevDot, _, [] => !prevDot
+  | _, some phase, t :: r =>
+    if t.tt == .rightBracket then shapeGo false none r
+    else (t.tt != .delim || t.data.length == 1) && (t.tt != .string || phase == 1) && shapeGo false (some (attrNorm phase t).2) r
+  | prevDot, none, t :: r =>
+    (t.tt != .delim || t.data.length == 1) && (!prevDot || t.tt == .ident) &&
+    (if t.tt == .leftBracket then shapeGo false (some 0) r
+     else shapeGo (t.tt == .delim && t.data == ['.']) none r)
+
+def selShape (ts : List Tok) : Bool := shapeGo false none ts
 
 /-! ## specificity -/
 
